@@ -105,6 +105,8 @@ def project_image(img, rest_ids=None, idspace=False):
             "fieldCount": h["fieldCount"], "definedFieldCount": h["definedFieldCount"], "autoSqlOffset": h["autoSqlOffset"],
             "totalSummaryOffset": h["totalSummaryOffset"], "uncompressBufSize": h["uncompressBufSize"],
             "zoomDir": [[z["reduction"], z["dataOffset"], z["indexOffset"]] for z in img.get("zoomDir", [])],
+            "zoomDirReserved": [z.get("reserved", 0) for z in img.get("zoomDir", [])], "extensionOffset": h.get("extensionOffset", 0),
+            "autoSqlLen": len((img.get("autoSql") or "").encode("utf-8", "surrogateescape")) if isinstance(img.get("autoSql"), str) else 0,
             "summary": summary, "dataCount": img.get("dataCount", 0),
             "ctree": {"magic": ct.get("magic", ""), "blockSize": ct.get("blockSize", 0), "keySize": ct.get("keySize", 0), "valSize": ct.get("valSize", 0),
                       "itemCount": ct.get("itemCount", 0), "maxNodeItems": max([len(n.get("items", [])) for n in ct.get("nodes", [])] + [0]), "chroms": [[chrom_idx(c["key"]), c["id"], c["size"], len(c["key"].encode())] for c in chroms]},
